@@ -34,6 +34,7 @@ func loadSpecs() (*Specs, error) {
 			return nil, err
 		}
 	}
+	globalTagSets = sp.TagSets
 	return sp, nil
 }
 
